@@ -25,6 +25,11 @@ def resXStr : ResX → String
   | .implDefined => "impl"
   | .panic => "panic"
 
+/-- texts of the exponent branch on which strconv itself is not correctly rounded (Model/FixedTextExp.lean, `longMantissa`):
+    both sides print `long` -/
+def viewX (s : Str) (r : ResX) : String :=
+  if !s.isEmpty && hasExp (stripCommas s) && longMantissa (stripCommas s) then "long" else resXStr r
+
 def target? : String → Option Target
   | "i8" => some ⟨8, true⟩ | "i16" => some ⟨16, true⟩ | "i32" => some ⟨32, true⟩ | "i64" => some ⟨64, true⟩
   | "int" => some ⟨64, true⟩
@@ -71,6 +76,15 @@ def step (_ : Unit) (line : String) : Unit × String :=
       match b.toNat?, hexBytes? h with
       | some bits, some t => fltHex bits (parseFloatGo bits t)
       | _, _ => "bad-op"
+    | ["pfx", h] =>
+      match hexBytes? h with
+      | some t =>
+        -- domain of the model: texts with e/E (the exponent branch) and texts that begin, behind an optional sign, like a
+        -- special value; plain decimals without an exponent are `parseFloatGo`'s (op `pf`)
+        let dom := hasExp t || (match dropSign t with | c :: _ => c == 105 || c == 73 || c == 110 || c == 78 | [] => false)
+        if hasExp t && longMantissa t then "long"
+        else if dom then (match parseFloatAny t with | some x => natToHex (GoSem.F64.toBits x) | none => "err") else "n/a"
+      | none => "bad-op"
     | ["ff", b, h] =>
       match b.toNat? with
       | some bits =>
@@ -88,8 +102,8 @@ def step (_ : Unit) (line : String) : Unit × String :=
     | ["parse", ty, d, h] =>
       match cfg? d, hexBytes? h with
       | some (places, mult), some s =>
-        if ty == "128" then resXStr (fromStrX128 places mult s) ++ " " ++ resXStr (unmarshalX128 places mult s) ++ " lib-ok"
-        else resXStr (fromStrX64 places mult s) ++ " " ++ resXStr (unmarshalX64 places mult s) ++ " lib-ok"
+        if ty == "128" then viewX s (fromStrX128 places mult s) ++ " " ++ viewX (unquote s) (unmarshalX128 places mult s) ++ " lib-ok"
+        else viewX s (fromStrX64 places mult s) ++ " " ++ viewX (unquote s) (unmarshalX64 places mult s) ++ " lib-ok"
       | _, _ => "bad-op"
     | ["unq", h] =>
       match hexBytes? h with
